@@ -159,7 +159,11 @@ impl Prop for MlsaSpectrum {
             return Ok(Report::rejected("reference-not-decayed"));
         }
         let mut rep = Report::new();
-        for (name, h) in [("frame1", &m.frame1), ("frame2", &m.frame2)] {
+        // a third measurement: a pulse 0..3 samples before the end of a frame, ringing across the
+        // frame boundary (frame period and pulse period are functions of the case)
+        let bits = c.cepstrum.iter().fold(c.rate as u64, |h, x| h.wrapping_mul(31).wrapping_add(x.to_bits() >> 20));
+        let tail: Vec<f64> = crate::dsp::measure_pulse_tail(&c.cepstrum, 0, c.log_gain_flag, c.rate, c.alpha, 0.0, (bits % 16) as usize, ((bits >> 4) % 4) as usize);
+        for (name, h) in [("frame1", &m.frame1), ("frame2", &m.frame2), ("frame-tail", &tail)] {
             if let Some(i) = h.iter().position(|x| !x.is_finite()) {
                 fail!("mlsa-nonfinite", "{}: non-finite sample at {} of the pulse response", name, i);
             }
